@@ -36,6 +36,8 @@ inductive PyExc where
   | runtimeError | recursionError
   | lookupError | keyError | indexError
   | attributeError | assertionError | memoryError | overflowError | stopIteration
+  -- aiorpcx.jsonrpc: CodeMessageError(Exception), RPCError / ProtocolError(CodeMessageError)
+  | codeMessageError | rpcError | protocolError
   deriving DecidableEq, Repr, Inhabited
 
 namespace PyExc
@@ -58,6 +60,9 @@ def base : PyExc → Option PyExc
   | memoryError => some exception
   | overflowError => some exception            -- via ArithmeticError
   | stopIteration => some exception
+  | codeMessageError => some exception
+  | rpcError => some codeMessageError
+  | protocolError => some codeMessageError
 
 /-- `issubclass(a, b)`; the hierarchy above has height 4 -/
 def isSubclass (a b : PyExc) : Bool :=
@@ -78,11 +83,14 @@ def name : PyExc → String
   | attributeError => "AttributeError" | assertionError => "AssertionError"
   | memoryError => "MemoryError" | overflowError => "OverflowError"
   | stopIteration => "StopIteration"
+  | codeMessageError => "CodeMessageError" | rpcError => "RPCError"
+  | protocolError => "ProtocolError"
 
 def all : List PyExc :=
   [baseException, exception, typeError, valueError, unicodeDecodeError, jsonDecodeError,
    runtimeError, recursionError, lookupError, keyError, indexError, attributeError,
-   assertionError, memoryError, overflowError, stopIteration]
+   assertionError, memoryError, overflowError, stopIteration, codeMessageError, rpcError,
+   protocolError]
 
 def ofName (s : String) : Option PyExc := all.find? (fun e => e.name == s)
 
@@ -342,7 +350,21 @@ def pySorted {α : Type} (key : α → J) (xs : List α) : Except PyExc (List α
     .ok (xs.mergeSort (fun a b => keyLe (key a) (key b)))
   else .error .typeError
 
-/-! ### Well-formed ("JSON-representable") values: unique dict keys, finite floats -/
+/-! ### Well-formed ("JSON-representable") values: unique dict keys, finite floats, strings
+whose surrogates are lone (`json.loads` joins an escaped high+low pair into one astral character,
+so a `str` holding the two code points separately does not survive `loads ∘ dumps`) -/
+
+def isHiSur (c : Nat) : Bool := 0xD800 ≤ c && c ≤ 0xDBFF
+def isLoSur (c : Nat) : Bool := 0xDC00 ≤ c && c ≤ 0xDFFF
+
+def strWf : Str → Bool
+  | [] => true
+  | [c] => c ≤ 0x10FFFF
+  | a :: b :: r => a ≤ 0x10FFFF && !(isHiSur a && isLoSur b) && strWf (b :: r)
+
+def keysWf : List (Str × J) → Bool
+  | [] => true
+  | (k, _) :: r => strWf k && keysWf r
 
 def uniqueKeys : List (Str × J) → Bool
   | [] => true
@@ -351,8 +373,9 @@ def uniqueKeys : List (Str × J) → Bool
 mutual
 def J.wf : J → Bool
   | .float f => f.isFinite
+  | .str s => strWf s
   | .arr xs => J.wfList xs
-  | .obj kvs => uniqueKeys kvs && J.wfObj kvs
+  | .obj kvs => uniqueKeys kvs && keysWf kvs && J.wfObj kvs
   | _ => true
 def J.wfList : List J → Bool
   | [] => true
@@ -382,6 +405,8 @@ example : pySorted id [J.null, J.null] = .error .typeError := by decide
 example : pySorted id [J.null] = .ok [J.null] := by decide
 example : PyExc.caughtBy .jsonDecodeError [.valueError] = true := by decide
 example : PyExc.caughtBy .valueError [.jsonDecodeError] = false := by decide
+example : PyExc.caughtBy .protocolError [.codeMessageError] = true := by decide
+example : PyExc.caughtBy .rpcError [.protocolError] = false := by decide
 example : PyExc.caughtBy .recursionError [.valueError, .unicodeDecodeError] = false := by decide
 
 end Aiorpcx.Py
